@@ -163,4 +163,9 @@ U(name="B.str.nfkd_lazy", harness="harness/str_nfkd_lazy_b.c", mode="P", unwind=
   bounded="strings of at most 9 bytes (all byte values); no woven text, so it also decides refactored loops",
   functions=["utf8_nfkd_lazy"], chars=("signed", "unsigned"), props=["C19", "C14"])
 
+for kind, nl in (("STR", 2), ("PREFIX", 3), ("STR_NOACCENT", 6), ("PREFIX_NOACCENT", 12)):
+    U(name="U.cmpf." + kind.lower(), harness="harness/cmp_rule.c", mode="H", loops=True, profiles=["cmpf"],
+      defines=["CMP_" + kind], functions=["compare_" + kind.lower(), "compare_" + kind.lower() + "_wrap"], loop_contracts=["compare_" + kind.lower()],
+      expect_loop_obligations=nl, chars=("signed", "unsigned"), unwind=POLYSEED_STR_SIZE_PLUS1, props=["C08", "C07", "C19"], timeout=1800)
+
 BY_NAME = {u.name: u for u in UNITS}
